@@ -3798,3 +3798,20 @@ Theorem opacity_proof : forall strict T c t,
 Proof.
   intros. unfold render_taint. apply taint_log_empty; auto using templates_wf_b.
 Qed.
+
+(* ================================================================== *)
+(* U. histories on one instance: a render is a function of (templates, strict, context,
+      template) only - nothing an earlier call did (its outcome, an exception, the counters)
+      can influence a later one *)
+Lemma step_state : forall i cl,
+  i_templates (fst (step i cl)) = i_templates i /\ i_strict (fst (step i cl)) = i_strict i.
+Proof. intros. split; reflexivity. Qed.
+
+Theorem history_independent_proof : forall T strict n cls,
+  run_calls (mkInstance T strict n) cls =
+  map (fun cl : call => (render_impl strict (print_templates T) (snd cl) (print (fst cl)),
+                         render_taint strict (print_templates T) (snd cl) (print (fst cl)))) cls.
+Proof.
+  intros T strict n cls. revert n. induction cls as [|cl cls IH]; intros n; [reflexivity|].
+  cbn [run_calls step map i_templates i_strict i_calls fst snd]. f_equal. apply IH.
+Qed.
